@@ -170,6 +170,22 @@ def request_lines(case):
             proto.line(A('C01'), A('events'), forest)]
 
 
+def reader_tokens(ans):
+    """the Lean reader's events in the vocabulary of the oracle's tokens"""
+    out = []
+    for e in ans:
+        if e[0] == 'S':
+            d = dict((k, v) for k, v in e[2])
+            if len(d) != len(e[2]):
+                out.append(['DUPATTR', e[1]])
+            out.append(['S', e[1], d])
+        elif e[0] == 'E':
+            out.append(['E', e[1]])
+        else:
+            out.append(['T', e[1]])
+    return out
+
+
 def real_events(case):
     """the START/END/TEXT events of Template.generate / Element.generate, in the model's vocabulary"""
     from genshi.core import Markup, escape, START, END, TEXT
@@ -204,12 +220,13 @@ def compare(cases, outs, res, reparse):
         if ls is None:
             res.count('model:no-counterpart')
             continue
+        ls = ls + [proto.line(A('C01'), A('read'), A(c['method']), outs[i])]
         for j, l in enumerate(ls):
             lines.append(l)
             idx.append((i, j))
     answers = proto.run_lines(lines)
     for (i, j), ans in zip(idx, answers):
-        stream = 'render-text' if j == 0 else 'template-events'
+        stream = ['render-text', 'template-events', 'reader-vs-independent-parser'][j]
         if ans == 'unmodelled':
             res.count('model:unmodelled')
             continue
@@ -219,6 +236,9 @@ def compare(cases, outs, res, reparse):
             model = Atom(ans)
         if j == 0:
             real = outs[i]
+        elif j == 2:
+            real = G.coalesce(reparse(outs[i], cases[i]['method']))
+            model = reader_tokens(model) if isinstance(model, list) else model
         else:
             try:
                 real = real_events(cases[i])
